@@ -225,3 +225,25 @@ package sfnt
 //@   loop 1
 //@     invariant res != nil && fresh(res) && res.CMapTable != nil && fresh(res.CMapTable) && s.newGid != nil
 //@     invariant seen(f.CMapTable, k0) && cmap.decodes(f.CMapTable[k0]) && (p0 != 1 || e0 == 0) ==> has(res.CMapTable, k0)
+
+// Per-glyph queries: no panic for a glyph ID of the font, whichever optional
+// data (widths, names, nil glyphs) the outlines lack.
+//@ pred fontOK(f *Font) = f != nil && f.Outlines != nil && (is(f.Outlines, *glyf.Outlines) || is(f.Outlines, *cff.Outlines)) && (is(f.Outlines, *glyf.Outlines) ==> f.Outlines.(*glyf.Outlines) != nil && (f.Outlines.(*glyf.Outlines).Widths == nil || len(f.Outlines.(*glyf.Outlines).Widths) == len(f.Outlines.(*glyf.Outlines).Glyphs)) && (f.Outlines.(*glyf.Outlines).Names == nil || len(f.Outlines.(*glyf.Outlines).Names) == len(f.Outlines.(*glyf.Outlines).Glyphs))) && (is(f.Outlines, *cff.Outlines) ==> f.Outlines.(*cff.Outlines) != nil && forall i int :: 0 <= i && i < len(f.Outlines.(*cff.Outlines).Glyphs) ==> f.Outlines.(*cff.Outlines).Glyphs[i] != nil)
+//@ spec nglyphs(f *Font) int = ite(is(f.Outlines, *glyf.Outlines), len(f.Outlines.(*glyf.Outlines).Glyphs), len(f.Outlines.(*cff.Outlines).Glyphs))
+//@ func (f *Font) GlyphWidth(gid glyph.ID) (w float64)   props: C02 C12 C16
+//@   requires fontOK(f) && gid < nglyphs(f)
+//@   modifies nothing
+//@ func (f *Font) GlyphName(gid glyph.ID) (name string)   props: C02 C16
+//@   requires fontOK(f) && gid < nglyphs(f)
+//@   ensures is(f.Outlines, *glyf.Outlines) && f.Outlines.(*glyf.Outlines).Names != nil ==> name == f.Outlines.(*glyf.Outlines).Names[gid]
+//@   ensures is(f.Outlines, *cff.Outlines) ==> name == f.Outlines.(*cff.Outlines).Glyphs[gid].Name
+//@   modifies nothing
+//@ func (f *Font) WidthsPDF() (res []float64)   props: C02 C12 C16
+//@   requires fontOK(f)
+//@   ensures isnil(res) || (fresh(res) && len(res) == nglyphs(f))
+//@   opt assume_make=1
+//@   modifies nothing
+//@   loop 0
+//@     invariant fresh(widths) && len(widths) == len(outlines.Glyphs)
+//@   loop 1
+//@     invariant fresh(widths) && len(widths) == len(outlines.Glyphs)
